@@ -2,6 +2,7 @@ SPECIFICATION Spec
 CONSTANTS
   Thorough = TRUE
   Den3 = 8
+  DenA = 1
 INVARIANTS
   TokInv
   AstInv
